@@ -464,8 +464,8 @@ LIB_SPECS = {
                 floors={"histories_nontrivial": 20000, "ops_that_moved_others": 20000, "ops_allocate_ok": 200000, "ops_commit_ok": 30000, "reallocs_changed": 20000},
                 rule="same workload as C06; after every successful Allocate/Realloc/Commit: Hall fit over all 2^n node subsets, strict types, normal memory in every new zone, superset-only moves, reservations never moved, Realloc never removes nodes, returned updates = exactly the changed assignments; distinct = operations that moved other allocations"),
     "C08": dict(shards=16, n=dict(quick=5, thorough=40), tmpfs=True,
-                floors={"machines": 40, "calls_alloc": 50000, "calls_release": 20000, "hybrid_machines": 3, "error_expected_and_got": 1000},
-                rule="N synthetic machines per shard (<=64 CPUs, hybrid/L2-cluster/offline/cpufreq variety), <=3000 checked AllocateCpus/ReleaseCpus calls each over biased subsets S of the online CPUs, counts 0..|S|+1, 5 priorities x 17 flag masks; thorough: machines with <=10 online CPUs are enumerated completely; non-trivial = call with 0<n<|S|, distinct by (machine shape, |S|, n, priority, flags)"),
+                floors={"machines": 40, "calls_alloc": 50000, "calls_release": 20000, "hybrid_machines": 3, "error_expected_and_got": 1000, "machines_with_cpus_offlined_after_discovery": 4},
+                rule="N synthetic machines per shard (<=64 CPUs, hybrid/L2-cluster/offline/cpufreq variety; on every fourth machine one or two CPUs are taken offline after discovery through System.SetCpusOnline, so the topology still names them as siblings), <=3000 checked AllocateCpus/ReleaseCpus calls each over biased subsets S of the online CPUs, counts 0..|S|+1, 5 priorities x 17 flag masks; thorough: machines with <=10 online CPUs are enumerated completely; non-trivial = call with 0<n<|S|, distinct by (machine shape, |S|, n, priority, flags)"),
     "C16": dict(shards=16, n=dict(quick=150, thorough=1500), tmpfs=True,
                 floors={"machines": 500, "setups_accepted": 1000, "pools_checked": 4000, "machines_pmem": 50, "machines_hbm": 30, "machines_memless": 30, "machines_offline": 30, "machines_isolated": 50, "machines_hybrid": 30, "machines_multi_die": 50, "special_nodes_attached": 500, "machines_legacy_attribute_names": 100, "setups_via_reconfigure": 500, "machines_with_movable_only_cpu_node": 60},
                 rule="catalogue + N random machines per shard written as sysfs trees; every accessor of the discovered sysfs.System compared with the generating model; 3 (quick) / 5 (thorough) topology-aware configurations per machine set up through the real backend, pool tree compared with the shape computed from model + configuration; distinct = machine shape x config class for machines with >=2 pools"),
